@@ -338,31 +338,25 @@ def firstOcc : List String → List String
   | [] => []
   | x :: xs => x :: (firstOcc xs).filter (· != x)
 
-def collectAxes (dct : List (Nat × String)) : Nat → Nat → Except Err (List String)
-  | 0, _ => .ok []
-  | n + 1, i =>
-    match natLookupLast i dct with
-    | none => .error .keyError
-    | some a =>
-      match collectAxes dct n (i + 1) with
-      | .error e => .error e
-      | .ok r => .ok (a :: r)
+/-- positions `i, i+1, …` (n of them) of the positional axes tuple: the last name recorded at a position, `none` for a
+    position that is only ever sliced -/
+def collectAxes (dct : List (Nat × String)) : Nat → Nat → List (Option String)
+  | 0, _ => []
+  | n + 1, i => natLookupLast i dct :: collectAxes dct n (i + 1)
 
-def mapspecAxesGo (specs : List ArraySpec) : List String → Except Err (List (String × List String))
-  | [] => .ok []
+def maxRank (specs : List ArraySpec) (n : String) : Nat :=
+  (specs.filter (·.name == n)).foldl (fun m a => max m a.axes.length) 0
+
+def mapspecAxesGo (specs : List ArraySpec) : List String → List (String × List (Option String))
+  | [] => []
   | n :: ns =>
     let dct := (specs.filter (·.name == n)).flatMap fun a => namedAt 0 a.axes
-    match collectAxes dct (nDistinctNat (dct.map (·.1))) 0 with
-    | .error e => .error e
-    | .ok ax =>
-      match mapspecAxesGo specs ns with
-      | .error e => .error e
-      | .ok r => .ok ((n, ax) :: r)
+    (n, collectAxes dct (maxRank specs n) 0) :: mapspecAxesGo specs ns
 
-/-- `mapspec_axes` (`_mapspec.py:424-432`): `tuple(dct[i] for i in range(len(dct)))` raises `KeyError` when the named
-    positions of an array are not `0 … len-1`; an array with no named axis has no entry. -/
-def mapspecAxes (ms : List MapSpec) : Except Err (List (String × List String)) :=
+/-- `mapspec_axes` (`_mapspec.py`, as repaired by DF-29): for every array a positional tuple of its full rank, the last name
+    recorded at each position and `none` for an axis that no MapSpec names -/
+def mapspecAxes (ms : List MapSpec) : List (String × List (Option String)) :=
   let specs := allSpecs ms
-  mapspecAxesGo specs (firstOcc ((specs.filter fun a => !(indices a).isEmpty).map (·.name)))
+  mapspecAxesGo specs (firstOcc (specs.map (·.name)))
 
 end PF.MS
